@@ -35,12 +35,6 @@ def bytes_to_case(data: bytes):
     return {"mode": "text", "text": text, "uod": uod}
 
 
-def case_to_bytes(case) -> bytes:
-    flags = (2 if case.get("uod") else 0) | (1 if case["mode"] == "lines" else 0)
-    text = "\n".join(case["lines"]) if case["mode"] == "lines" else case["text"]
-    return bytes([flags]) + text.encode("utf-8")
-
-
 def main():
     if len(sys.argv) == 3 and sys.argv[1] == "--to-case":
         with open(sys.argv[2], "rb") as f:
